@@ -1,10 +1,10 @@
 (* C12 - the server's Maximum Packet Size is honoured exactly. *)
-From Poster Require Import Model.Client Proofs.ClientP.
+From Poster Require Import Model.Client Proofs.ClientP Proofs.QuotaP Proofs.ResumeP Proofs.WireP.
 
-(* M is the CONNACK's value; when the CONNACK carries none, the previous value (None on a fresh
-   Context) stays *)
+(* M is the value announced by the CONNACK of this connection; a CONNACK that announces none leaves no limit, whatever
+   an earlier connection of the same Context had announced (finding F20, fixed in f454533) *)
 Theorem C12_from_connack : forall (x : ctx) (p : rxpkt),
-  maxpkt (handle_connack x p) = match pnum 39 (r_props p) with Some v => Some v | None => maxpkt x end.
+  maxpkt (handle_connack x p) = pnum 39 (r_props p).
 Proof. reflexivity. Qed.
 Print Assumptions C12_from_connack.
 
@@ -33,6 +33,14 @@ Theorem C12_accept : forall (s : sys) (m : cmsg),
   wire_ev (fst (handle_message s m)) = wire_ev s ++ msg_pkt m.
 Proof. exact fits_written. Qed.
 Print Assumptions C12_accept.
+
+(* over every history of Context steps (WireP; refused = too big for M, or a QoS>0 PUBLISH at quota 0): the wire is the
+   concatenation of exactly the packets that are not refused, each in full, and of the acknowledgements due - so not
+   one byte of a refused request is ever written, and every accepted one is written whole, exactly once *)
+Theorem C12_wire_history : forall (evs : list qev) (s : sys), wbudget s = None ->
+  wire_ev (run_q s evs) = wire_ev s ++ spec_wire s evs.
+Proof. exact wire_history. Qed.
+Print Assumptions C12_wire_history.
 
 Example C12_nonvacuous :
   let s := set_c sys_init (mkctx [] [] [] [] 5 5 (Some 3) 0 None) in
